@@ -24,8 +24,15 @@ class _Tx(ast.NodeTransformer):
             n = node.func.id
             if n == "old":
                 key = "__old_%d" % len(self.olds)
-                self.olds.append((key, ast.Expression(self.generic_visit_expr(node.args[0]))))
+                inner = self.generic_visit_expr(node.args[0])
+                # a PARAMETER named `result`: inside old(...) and final(...) the name means the parameter, elsewhere the return value
+                for sub in ast.walk(inner):
+                    if isinstance(sub, ast.Name) and sub.id == "result":
+                        sub.id = "__param_result_or_result"
+                self.olds.append((key, ast.Expression(inner)))
                 return ast.copy_location(ast.Name(id=key, ctx=ast.Load()), node)
+            if n == "final" and isinstance(node.args[0], ast.Name) and node.args[0].id == "result":
+                return ast.copy_location(ast.Name(id="__param_result_or_result", ctx=ast.Load()), node)
             node = self.generic_visit(node)
             if n == "implies":
                 return ast.copy_location(ast.BoolOp(op=ast.Or(), values=[ast.UnaryOp(op=ast.Not(), operand=node.args[0]), node.args[1]]), node)
